@@ -48,9 +48,14 @@ PROPS["C12"] = dict(T(6000, 60, 300000, 1200), race=True,
     technique="deterministic simulation (seeded run-token scheduler, instrumented real code, simulated transport) with ThreadSanitizer as the oracle in a -race build",
     rule="Scenario families borrowed from C01/C05/C11/C13/C20 with their functional oracles muted; violation = race report with an access in repository code, signature = the pair of functions.")
 
+PROPS["C13"] = dict(T(16000, 40, 1000000, 900),
+    text="Histories of 0-3 listeners (Async, Sync in a task, or never started; optional Listener.Close), 0-3 Bootstrap.Connect calls (loop-back to an own listener or to a silent peer), 0-2 external dials and one Shutdown placed anywhere by the schedule, on a real Bootstrap + channelHolder over the simulated factory. At quiescence: context cancelled, every acceptor ever created is closed with no Accept outstanding, every started accept loop ended (with the server-closed error unless the listener was closed explicitly), every transport ever created is closed exactly once with inactive delivered exactly once, no executor task is left blocked. Found the pinned-tree defect (listener started after/while Shutdown keeps a live acceptor).",
+    note=NOTE,
+    rule="Scenario: real Bootstrap + holder; listeners/connects/dials/Shutdown as concurrent tasks; peers stay silent so that only Shutdown can end a channel.")
+
 NOT_APPLICABLE = {
     "C03": "Pipeline order and routing are pure functions of the build program and the event: the handler list is immutable after build and traversed by whichever goroutine delivers the event; no schedule, clock, fault or I/O behaviour enters. Simulation would only be relabelled input generation (DESIGN.md section 3, C03).",
     "C19": "pool.Pool adds no concurrency, time or I/O of its own: shard choice is arithmetic on sizes, mutual exclusion is entirely sync.Pool's, which the simulator has to replace by a stub, so simulated concurrent use would exercise the stub and not the repository (DESIGN.md section 3, C19).",
 }
-for _p in ["C04", "C07", "C08", "C09", "C13", "C14", "C15", "C16", "C17", "C20"]:
+for _p in ["C04", "C07", "C08", "C09", "C14", "C15", "C16", "C17", "C20"]:
     NOT_APPLICABLE.setdefault(_p, "check under construction in this session (planned as applicable, DESIGN.md section 3); not claimed until it runs clean")
